@@ -165,6 +165,8 @@ static void run_actor(int idx)
     }
     simgrid_verif_log("{\"e\":\"ret\",\"a\":%ld,\"k\":%zu,\"res\":\"%s\",\"val\":%ld,\"clk\":%ld,%s}\n", me, k + 1,
                       res.c_str(), val, ticks_of(sg4::Engine::get_clock()), projected_state().c_str());
+    if (op.name == "trylock" && op.a[1] == 1 && res == "false")
+      k++; // "trylock?": a failed attempt skips the next operation (its matching unlock)
   }
 }
 
@@ -181,37 +183,37 @@ static void parse(const char* path)
     std::string w;
     if (!(ls >> w) || w[0] == '#')
       continue;
-    if (w == "tick") {
+    if (w == "@tick") {
       int e;
       ls >> e;
       TICK = std::ldexp(1.0, -e);
-    } else if (w == "hosts")
+    } else if (w == "@hosts")
       ls >> nhosts;
-    else if (w == "mutex") {
+    else if (w == "@mutex") {
       int r;
       ls >> r;
       mutex_rec.push_back(r != 0);
-    } else if (w == "sem") {
+    } else if (w == "@sem") {
       int c;
       ls >> c;
       sem_cap.push_back(c);
-    } else if (w == "cv")
+    } else if (w == "@cv")
       ncv++;
-    else if (w == "bar") {
+    else if (w == "@bar") {
       int s;
       ls >> s;
       bar_size.push_back(s);
-    } else if (w == "mbox")
+    } else if (w == "@mbox")
       nmbox++;
-    else if (w == "mq")
+    else if (w == "@mq")
       nmq++;
-    else if (w == "actor") {
+    else if (w == "@actor") {
       ActorSpec a;
       int d = 0;
       ls >> a.host >> d;
       a.daemon = d != 0;
       actors.push_back(a);
-    } else if (w == "end")
+    } else if (w == "@end")
       break;
     else {
       Op op;
